@@ -130,6 +130,8 @@ pub enum MuxPlan {
     Ok,
     Err,
     NotConfigured,
+    /// ICMP: every echo request is answered by this many echo replies
+    Echo(u32),
 }
 
 #[derive(Default)]
@@ -299,6 +301,7 @@ impl VForwarder for ScriptedForwarder {
         self.calls.lock().unwrap().icmp += 1;
         match self.icmp_plan {
             MuxPlan::Ok => VMux::Silent,
+            MuxPlan::Echo(k) => VMux::Echo(k),
             MuxPlan::NotConfigured => VMux::NotConfigured,
             MuxPlan::Err => VMux::Err(io::Error::new(io::ErrorKind::Other, "scripted mux failure")),
         }
